@@ -83,7 +83,10 @@ EqInv == \A i \in Idx : \A j \in Idx :
    EqImpl(P(i).e, P(j).e) <=> (P(i).e.ty = P(j).e.ty /\ P(i).a = P(j).a)
 
 Term == Len(hist) = MaxOps
-H == (Len(pool) * 7 + Len(pool[Len(pool)].e.buf) + pool[Len(pool)].e.off * 3 + W(pool[1].e.ty)) % EmitMod
+\* a spread-out sample over the whole pool (buffer lengths, offsets, widths, weighted by position)
+RECURSIVE PoolSum(_)
+PoolSum(k) == IF k = 0 THEN 0 ELSE PoolSum(k - 1) + (k + 5) * (31 * k + 17 * Len(pool[k].e.buf) + 13 * pool[k].e.off + 7 * W(pool[k].e.ty))
+H == PoolSum(Len(pool)) % EmitMod
 Emit == (Term /\ pool # <<>> /\ H = 0) =>
    PrintT(<<"CASE", ToJson([hist |-> hist,
                             exp |-> [i \in Idx |-> [ty |-> P(i).e.ty, m |-> PaddedM(P(i).a, P(i).e.ty),
